@@ -53,11 +53,59 @@ Qed.
 Lemma independent_keys c c' k : independent c c' -> is_recording_key c' k = true -> is_recording_key c k = false.
 Proof.
   intros I H. destruct (is_recording_key c k) eqn:E; [|reflexivity].
-  exfalso. eapply independent_own_disjoint; [exact I| |]; apply recording_key_under_own; eassumption.
+  exfalso. apply (independent_own_disjoint c c' k I); apply recording_key_under_own; [exact E|exact H].
 Qed.
 
 Lemma independent_sym c c' : independent c c' -> independent c' c.
 Proof. intros [A B]. split; assumption. Qed.
+
+Lemma incomparable_no_common a b k : incomparable a b = true -> prefixb a k = true -> prefixb b k = true -> False.
+Proof.
+  unfold incomparable. intros I A B. apply andb_true_iff in I. destruct I as [I1 I2].
+  apply negb_true_iff in I1. apply negb_true_iff in I2.
+  destruct (prefixb_comparable _ _ _ A B); congruence.
+Qed.
+
+Lemma key_disjoint_keys c c' k : key_disjoint c c' = true -> is_recording_key c' k = true -> is_recording_key c k = false.
+Proof.
+  unfold key_disjoint, is_recording_key. intros D H.
+  apply andb_true_iff in D. destruct D as [D D4]. apply andb_true_iff in D. destruct D as [D D3].
+  apply andb_true_iff in D. destruct D as [D1 D2].
+  apply orb_true_iff in H. apply orb_false_iff. split.
+  - destruct (prefixb (full_key (np c) []) k) eqn:E; [|reflexivity]. exfalso.
+    destruct H as [H|H]; [exact (incomparable_no_common _ _ k D1 E H)|exact (incomparable_no_common _ _ k D2 E H)].
+  - destruct (prefixb (meta_key (np c) []) k) eqn:E; [|reflexivity]. exfalso.
+    destruct H as [H|H]; [exact (incomparable_no_common _ _ k D3 E H)|exact (incomparable_no_common _ _ k D4 E H)].
+Qed.
+
+Lemma key_disjoint_sym c c' : key_disjoint c c' = key_disjoint c' c.
+Proof.
+  unfold key_disjoint, incomparable.
+  destruct (prefixb (full_key (np c) []) (full_key (np c') [])), (prefixb (full_key (np c') []) (full_key (np c) [])),
+           (prefixb (full_key (np c) []) (meta_key (np c') [])), (prefixb (meta_key (np c') []) (full_key (np c) [])),
+           (prefixb (meta_key (np c) []) (full_key (np c') [])), (prefixb (full_key (np c') []) (meta_key (np c) [])),
+           (prefixb (meta_key (np c) []) (meta_key (np c') [])), (prefixb (meta_key (np c') []) (meta_key (np c) []));
+    reflexivity.
+Qed.
+
+Lemma independent_incomparable c c' (x y : str) :
+  independent c c' -> incomparable (ROOT ++ np c ++ x) (ROOT ++ np c' ++ y) = true.
+Proof.
+  intros [I1 I2]. unfold incomparable. rewrite !prefixb_app_l.
+  apply andb_true_iff. split; apply negb_true_iff.
+  - destruct (prefixb (np c ++ x) (np c' ++ y)) eqn:E; [|reflexivity]. exfalso.
+    apply prefixb_spec in E. destruct E as [r E]. rewrite <- app_assoc in E. symmetry in E.
+    destruct (app_eq_comparable _ _ _ _ E); congruence.
+  - destruct (prefixb (np c' ++ y) (np c ++ x)) eqn:E; [|reflexivity]. exfalso.
+    apply prefixb_spec in E. destruct E as [r E]. rewrite <- app_assoc in E. symmetry in E.
+    destruct (app_eq_comparable _ _ _ _ E); congruence.
+Qed.
+
+Lemma independent_key_disjoint c c' : independent c c' -> key_disjoint c c' = true.
+Proof.
+  intros I. unfold key_disjoint, full_key, meta_key.
+  rewrite !(independent_incomparable c c' _ _ I). reflexivity.
+Qed.
 
 (** ---- dict_set ---- *)
 Lemma dict_set_keys {A} k (v : A) d k' : In k' (keys (dict_set k v d)) <-> k' = k \/ In k' (keys d).
@@ -441,7 +489,7 @@ Section Complete.
 
   (** the heart: whatever prefix of the save's mutations has happened, the invariant holds *)
   Lemma plan_prefix_dc c c' r s ps st :
-    save_plan c' r s = Ans ps -> rec_wf r = true -> (np c' = np c \/ independent c c') ->
+    save_plan c' r s = Ans ps -> rec_wf r = true -> (np c' = np c \/ key_disjoint c c' = true) ->
     dc c (objs st) -> forall n, dc c (objs (apply_puts (firstn n ps) st)).
   Proof.
     intros P W [S|I] D n.
@@ -462,7 +510,7 @@ Section Complete.
       eapply dc_ext; [|exact D]. intros k K.
       apply apply_puts_outside with (c := c') (r := r).
       + apply Forall_firstn'. eapply save_plan_keys; exact P.
-      + eapply independent_keys; [apply independent_sym; exact I|exact K].
+      + eapply key_disjoint_keys; [rewrite key_disjoint_sym; exact I|exact K].
   Qed.
 
   Lemma put_states_In ps : forall st x, In x (put_states ps st) -> exists n, x = apply_puts (firstn n ps) st.
@@ -477,20 +525,20 @@ Section Complete.
       prefix; no clean-up (close of a writable transient cassette) of [c]'s own key space *)
   Definition benign (c : cfg) (ck : cfg * call) : Prop :=
     match snd ck with
-    | CSave r _ | CSaveCrash r _ _ => rec_wf r = true /\ (np (fst ck) = np c \/ independent c (fst ck))
-    | CClose | CExit => c_read_only (fst ck) = true \/ c_transient (fst ck) = false \/ independent c (fst ck)
+    | CSave r _ | CSaveCrash r _ _ => rec_wf r = true /\ (np (fst ck) = np c \/ key_disjoint c (fst ck) = true)
+    | CClose | CExit => c_read_only (fst ck) = true \/ c_transient (fst ck) = false \/ key_disjoint c (fst ck) = true
     | _ => True
     end.
 
   Lemma close_dc c c' st :
-    c_read_only c' = true \/ c_transient c' = false \/ independent c c' ->
+    c_read_only c' = true \/ c_transient c' = false \/ key_disjoint c c' = true ->
     dc c (objs st) -> dc c (objs (s3_close c' st)).
   Proof.
     intros H D. destruct (c_read_only c') eqn:R; [rewrite close_noop by (left; exact R); exact D|].
     destruct (c_transient c') eqn:T; [|rewrite close_noop by (right; exact T); exact D].
     destruct H as [H|[H|I]]; try discriminate.
     eapply dc_ext; [|exact D]. intros k K. rewrite close_get by assumption.
-    rewrite (independent_keys c' c k (independent_sym _ _ I) K). reflexivity.
+    rewrite (key_disjoint_keys c' c k); [reflexivity|rewrite key_disjoint_sym; exact I|exact K].
   Qed.
 
   Lemma step_dc c c' k st :
@@ -578,5 +626,14 @@ Section CloseFacts.
     rewrite close_get by assumption.
     destruct (is_recording_key c k) eqn:K; [|reflexivity].
     exfalso. eapply independent_own_disjoint; [exact I|apply recording_key_under_own; exact K|exact P].
+  Qed.
+
+  Lemma close_key_disjoint c c' st k :
+    key_disjoint c c' = true -> is_recording_key c' k = true ->
+    b_get k (objs (s3_close c st)) = b_get k (objs st).
+  Proof.
+    intros D K. destruct (c_read_only c) eqn:R; [rewrite close_noop by (left; exact R); reflexivity|].
+    destruct (c_transient c) eqn:T; [|rewrite close_noop by (right; exact T); reflexivity].
+    rewrite close_get by assumption. rewrite (key_disjoint_keys c c' k D K). reflexivity.
   Qed.
 End CloseFacts.
